@@ -36,7 +36,7 @@ def run(ctx):
             ctx.corr_break("C06/harness-exception", h.snapshot(), traceback.format_exc()[-3000:])
             ok = False
         ctx.count("family_%s" % cfg.get("family", "random"))
-        for key in ("dim", "version", "margin", "sf", "rebalancing", "boundary"):
+        for key in ("dim", "version", "margin", "sf", "rebalancing", "boundary", "flagrep"):
             ctx.count("%s_%s" % (key, cfg[key]))
         ctx.count("levels_%d_%d" % (cfg["lmin"], cfg["lmax"]))
         ctx.count("steps_done", len(h.case["script"]))
